@@ -76,10 +76,15 @@ impl CompoundSelector {
             Opt::Any => vec![],
             Opt::None => return Opt::None,
         };
-        Opt::Some(Self {
+        let mut result = Self {
             pseudo,
             ..self.clone()
-        })
+        };
+        if result.is_empty() && !self.is_empty() {
+            // What remains matches any element.
+            result.element = Some(ElemType::any());
+        }
+        Opt::Some(result)
     }
 
     pub(super) fn dedup(&mut self, original: &Self) {
